@@ -5,6 +5,7 @@ import (
 	"fmt"
 	"hash/crc32"
 	"math/rand"
+	"strings"
 	"sync"
 	"sync/atomic"
 
@@ -87,6 +88,9 @@ type Flow struct {
 	Dir   uint8
 	Media int
 	PT    uint8
+	// MaxPacket, when > 0, is the largest marshalled RTP packet size the writer may produce
+	// (the configured maximum packet size minus the SRTP overhead): payload sizes then reach it
+	MaxPacket int
 
 	mu     sync.Mutex
 	writes []WriteRec // index = counter
@@ -141,13 +145,22 @@ func (t *Traffic) Flow(media int, pt uint8) *Flow {
 func (f *Flow) Next(r *rand.Rand, maxPayload int, sentinel bool) (*rtp.Packet, int) {
 	f.mu.Lock()
 	ctr := len(f.writes)
+	hv := r.Intn(12) // header variant: 0 = two CSRCs, 1 = extension
+	if f.MaxPacket > 0 {
+		// the marshalled packet may be as large as the configured maximum packet size, exactly
+		hdr := 12
+		if hv == 0 || hv == 1 {
+			hdr += 8
+		}
+		maxPayload = f.MaxPacket - hdr
+	}
 	size := MinPayload
 	if maxPayload > MinPayload {
 		switch r.Intn(4) {
 		case 0:
 			size = MinPayload + r.Intn(8)
 		case 1:
-			size = maxPayload - r.Intn(4)
+			size = maxPayload - r.Intn(6)
 		default:
 			size = MinPayload + r.Intn(maxPayload-MinPayload+1)
 		}
@@ -169,7 +182,7 @@ func (f *Flow) Next(r *rand.Rand, maxPayload int, sentinel bool) (*rtp.Packet, i
 		},
 		Payload: pl,
 	}
-	switch r.Intn(12) {
+	switch hv {
 	case 0:
 		pkt.Header.CSRC = []uint32{r.Uint32(), r.Uint32()}
 	case 1:
@@ -546,6 +559,9 @@ func Check(t *Traffic, rd *Reader) ([]Finding, CheckStats) {
 				for c := first; c <= end || c <= lastLoad; c++ {
 					if c >= len(ws) {
 						break
+					}
+					if e := ws[c].Err; e != "" && !strings.Contains(e, "queue is full") {
+						continue // the write was refused (e.g. too big): nothing to deliver
 					}
 					if ws[c].Call == 0 || (win.Close > 0 && ws[c].Call > win.Close) {
 						continue
